@@ -7,28 +7,28 @@ by the literal expression `.lit l lit` at the same position.  When `x` is bound 
 `lit`, evaluation is *identical* (value, state, error positions).  Combined with `eval_sim`
 (positions are unobservable) this gives inlining with arbitrary positions: `Expr.substR`.
 -/
-namespace Resynth
+namespace Resynth.Sem
 
 mutual
-def Expr.subst (x : String) (lit : Lit) : Expr → Expr
+def _root_.Resynth.Expr.subst (x : String) (lit : Lit) : Expr → Expr
   | .nil => .nil
   | .lit l v => .lit l v
   | .ref o => if o.modules = [] ∧ o.components = [x] then .lit o.loc lit else .ref o
   | .call o a => .call o (a.subst x lit)
   | .slash a b => .slash (a.subst x lit) (b.subst x lit)
-def Args.subst (x : String) (lit : Lit) : Args → Args
+def _root_.Resynth.Args.subst (x : String) (lit : Lit) : Args → Args
   | .nil => .nil
   | .cons n e rest => .cons n (e.subst x lit) (rest.subst x lit)
 end
 
-def Stmt.subst (x : String) (lit : Lit) : Stmt → Stmt
+def _root_.Resynth.Stmt.subst (x : String) (lit : Lit) : Stmt → Stmt
   | .imp l m => .imp l m
   | .assign l t e => .assign l t (e.subst x lit)
   | .expr e => .expr (e.subst x lit)
 
 /-- substitution with arbitrary new positions everywhere (`r` renames positions) -/
-def Expr.substR (r : Loc → Loc) (x : String) (lit : Lit) (e : Expr) : Expr := (e.subst x lit).reloc r
-def Stmt.substR (r : Loc → Loc) (x : String) (lit : Lit) (s : Stmt) : Stmt := (s.subst x lit).reloc r
+def _root_.Resynth.Expr.substR (r : Loc → Loc) (x : String) (lit : Lit) (e : Expr) : Expr := (e.subst x lit).reloc r
+def _root_.Resynth.Stmt.substR (r : Loc → Loc) (x : String) (lit : Lit) (s : Stmt) : Stmt := (s.subst x lit).reloc r
 
 theorem Res.bind_congr_ok {α β : Type} {x : Res α} {f g : α → Res β} (h : ∀ a, x = .ok a → f a = g a) :
     (x >>= f) = (x >>= g) := by
@@ -133,8 +133,8 @@ theorem Stmt.mentions_reloc (r : Loc → Loc) (y : String) (s : Stmt) : (s.reloc
   cases s <;> simp [Stmt.reloc, Stmt.mentions, Expr.mentions_reloc]
 
 /-- erase every position -/
-def Expr.erase (e : Expr) : Expr := e.reloc (fun _ => Loc.nil)
-def Stmt.erase (s : Stmt) : Stmt := s.reloc (fun _ => Loc.nil)
+def _root_.Resynth.Expr.erase (e : Expr) : Expr := e.reloc (fun _ => Loc.nil)
+def _root_.Resynth.Stmt.erase (s : Stmt) : Stmt := s.reloc (fun _ => Loc.nil)
 
 /-- two expressions that differ only in positions evaluate alike from related states -/
 theorem eval_sim_erase {skip : String → Prop} (env : Env) {e e' : Expr} (he : e.erase = e'.erase)
@@ -168,4 +168,4 @@ theorem addStmts_sim_erase {skip : String → Prop} (env : Env) {ss ss' : List S
   rintro a c ⟨b, hab, hbc⟩
   exact hab.symm.trans hbc
 
-end Resynth
+end Resynth.Sem
